@@ -53,6 +53,8 @@ MUTANTS = [
     ("vt.contracts.einsum_eq", "get_einsum_eq", "cotengra/core.py", "            for i, ix in enumerate(unique(itertools.chain(l_inds, r_inds)))\n        }", "            for i, ix in enumerate(unique(itertools.chain(l_inds, r_inds)))\n            if not ix.isascii()\n        }"),
     ("vt.contracts.einsum_eq", "get_einsum_eq", "cotengra/core.py", "enumerate(unique(itertools.chain(l_inds, r_inds)))", "enumerate(unique(l_inds))"),
     ("vt.contracts.einsum_eq", "get_einsum_eq", "cotengra/core.py", "ord(ix): get_symbol(i)", "ord(ix): get_symbol(i % 52)"),
+    ("vt.contracts.core_legs,vt.contracts.legs_rules", "compute_leaf_legs", "cotengra/core.py", "            legs[ix] = legs.get(ix, 0) + 1", "            legs[ix] = legs.get(ix, 1) + 1"),
+    ("vt.contracts.core_legs,vt.contracts.legs_rules", "compute_leaf_legs", "cotengra/core.py", "            self.preprocessing[i] = eq", "            pass"),
     ("vt.contracts.core_legs,vt.contracts.legs_rules", "get_legs", "cotengra/core.py", "            if ix_count < self.appearances[ix]\n        }", "            if ix_count <= self.appearances[ix]\n        }"),
     ("vt.contracts.core_legs,vt.contracts.legs_rules", "get_legs", "cotengra/core.py", "return {ix: 0 for ix in self.output if ix not in self.sliced_inds}", "return {ix: 0 for ix in self.output}"),
     ("vt.contracts.core_legs,vt.contracts.legs_rules", "get_flops", "cotengra/core.py", "        if len(node) == 1:\n            return 0\n        involved = self.get_involved(node)", "        if len(node) == 1:\n            return 1\n        involved = self.get_involved(node)"),
